@@ -68,7 +68,15 @@ Definition glue_C05 : list (string * string) := [
   ("tensor/qtensor_func.py::register_qtensor_func", "afbad999f82678c5");
   ("tensor/qtensor_func.py::get_qtensor_func", "d39f55b36b6cc346");
   ("tensor/qtensor_func.py::<module>", "c106635e01f79da6");
-  ("tensor/qtype.py::<module>", "a95a463a66bea791")].
+  ("tensor/qtype.py::<module>", "a95a463a66bea791");
+  ("tensor/quantizers/symmetric.py::<module>", "c91bf9d2d71f296c");
+  ("tensor/quantizers/symmetric.py::SymmetricQuantizer.forward", "ad648a62f42e5431");
+  ("tensor/quantizers/affine.py::<module>", "ef980cb6d7e48f76");
+  ("tensor/quantizers/affine.py::AffineQuantizer.forward", "f16b25732aa146fe");
+  ("tensor/qweight.py::<module>", "7af1d2f14ade322b");
+  ("tensor/qweight.py::quantize_weight", "ef01ea967802eaa8");
+  ("tensor/qactivation.py::<module>", "db42a923222eb8b6");
+  ("tensor/qactivation.py::quantize_activation", "f8b9a9a0386a0a34")].
 
 Definition glue_C06 : list (string * string) := [
   ("tensor/qtensor.py::QTensor.__init__", "48a5ed1521709ff7");
@@ -93,7 +101,15 @@ Definition glue_C06 : list (string * string) := [
   ("tensor/qtensor_func.py::register_qtensor_func", "afbad999f82678c5");
   ("tensor/qtensor_func.py::get_qtensor_func", "d39f55b36b6cc346");
   ("tensor/qtensor_func.py::<module>", "c106635e01f79da6");
-  ("tensor/qtype.py::<module>", "a95a463a66bea791")].
+  ("tensor/qtype.py::<module>", "a95a463a66bea791");
+  ("tensor/quantizers/symmetric.py::<module>", "c91bf9d2d71f296c");
+  ("tensor/quantizers/symmetric.py::SymmetricQuantizer.forward", "ad648a62f42e5431");
+  ("tensor/quantizers/affine.py::<module>", "ef980cb6d7e48f76");
+  ("tensor/quantizers/affine.py::AffineQuantizer.forward", "f16b25732aa146fe");
+  ("tensor/qweight.py::<module>", "7af1d2f14ade322b");
+  ("tensor/qweight.py::quantize_weight", "ef01ea967802eaa8");
+  ("tensor/qactivation.py::<module>", "db42a923222eb8b6");
+  ("tensor/qactivation.py::quantize_activation", "f8b9a9a0386a0a34")].
 
 Definition glue_C07 : list (string * string) := [
   ("library/ops.py::<module>", "765f89bdd837d835");
@@ -183,5 +199,16 @@ Definition glue_C16 : list (string * string) := [
   ("tensor/core.py::<module>", "707a7e07ef0b0c0b");
   ("tensor/core.py::dtype_info", "eb61c7b4acff04aa");
   ("tensor/quantizers/symmetric.py::<module>", "c91bf9d2d71f296c");
-  ("tensor/quantizers/affine.py::<module>", "ef980cb6d7e48f76")].
+  ("tensor/quantizers/affine.py::<module>", "ef980cb6d7e48f76");
+  ("tensor/qactivation.py::<module>", "db42a923222eb8b6");
+  ("nn/qmodule.py::<module>", "8b8e76587ae9b124");
+  ("nn/qmodule.py::QModuleMixin.forward", "e5d7e41419d87137");
+  ("nn/qmodule.py::QModuleMixin.qforward", "1244d8c1c4d713de");
+  ("nn/qlinear.py::<module>", "b2846cc2a3fe1324");
+  ("nn/qlinear.py::QLinear.qforward", "d786605ad6fb6e19");
+  ("calibrate.py::Calibration.__init__", "916fab88a3e425ce");
+  ("calibrate.py::Calibration.__torch_function__", "839ffeafddcab49a");
+  ("calibrate.py::Calibration.calibrate_input", "be080cf06b9af441");
+  ("calibrate.py::Calibration.calibrate_output", "451b0440fe3a8bb6");
+  ("calibrate.py::<module>", "00ae5685f2c00be9")].
 
